@@ -52,6 +52,30 @@ func (s *rrState) start(base string) {
 	}
 	s.p = p
 	s.origin = httptest.NewServer(http.HandlerFunc(func(w http.ResponseWriter, r *http.Request) {
+		if strings.HasPrefix(r.URL.Path, "/trunc-") {
+			// an origin transfer that fails part-way: the announced length (or the last chunk) never arrives
+			hj, ok := w.(http.Hijacker)
+			if !ok {
+				return
+			}
+			conn, buf, err := hj.Hijack()
+			if err != nil {
+				return
+			}
+			cc := "max-age=60"
+			if strings.Contains(r.URL.Path, "nostore") {
+				cc = "no-store"
+			}
+			part := strings.Repeat("T", 1000)
+			if strings.HasPrefix(r.URL.Path, "/trunc-cl") {
+				fmt.Fprintf(buf, "HTTP/1.1 200 OK\r\nContent-Length: 100000\r\nCache-Control: %s\r\n\r\n%s", cc, part)
+			} else {
+				fmt.Fprintf(buf, "HTTP/1.1 200 OK\r\nTransfer-Encoding: chunked\r\nCache-Control: %s\r\n\r\n3e8\r\n%s\r\n", cc, part)
+			}
+			buf.Flush()
+			conn.Close()
+			return
+		}
 		w.Header().Set("Cache-Control", "max-age=60")
 		io.Copy(io.Discard, r.Body)
 		w.Write([]byte("origin-body:" + r.URL.Path))
@@ -106,7 +130,7 @@ func init() {
 				defer conn.Close()
 				o.Count("transport:" + f[1])
 				var tcConn *tls.Conn
-				if f[1] == "tunnel" || f[1] == "tunnel2" {
+				if f[1] == "tunnel" || f[1] == "tunnel2" || f[1] == "tunnel3" {
 					fmt.Fprintf(conn, "CONNECT %s HTTP/1.1\r\nHost: %s\r\n\r\n", s.ohost, s.ohost)
 					br := bufio.NewReader(conn)
 					resp, err := http.ReadResponse(br, nil)
@@ -126,6 +150,50 @@ func init() {
 						o.Count("result:" + strings.SplitN(r, ":", 2)[0])
 						return r
 					}
+				}
+				if f[1] == "tunnel3" {
+					// an exchange whose response the proxy cannot complete (the origin's transfer fails part-way), then an
+					// ordinary exchange on the SAME tunnel. An incomplete HTTP/1.1 message can only be signalled by closing
+					// the connection: whatever arrives after it would be read as the rest of the first body.
+					readQuiet := func(silence time.Duration) (data []byte, closed bool) {
+						bufb := make([]byte, 65536)
+						for {
+							tcConn.SetReadDeadline(time.Now().Add(silence))
+							n, err := tcConn.Read(bufb)
+							data = append(data, bufb[:n]...)
+							if err != nil {
+								ne, isNet := err.(net.Error)
+								return data, !(isNet && ne.Timeout())
+							}
+						}
+					}
+					a, closedA := readQuiet(900 * time.Millisecond)
+					first := "nothing"
+					if resp, err := http.ReadResponse(bufio.NewReader(strings.NewReader(string(a))), nil); err == nil {
+						b, berr := io.ReadAll(resp.Body)
+						first = fmt.Sprintf("status:%d body=%d", resp.StatusCode, len(b))
+						if berr != nil {
+							first += " incomplete"
+						} else {
+							first += " complete"
+						}
+					}
+					o.Count("tunnel3:" + strings.SplitN(first, " ", 2)[0])
+					if closedA {
+						return first + " then closed"
+					}
+					tcConn.SetWriteDeadline(time.Now().Add(2 * time.Second))
+					fmt.Fprintf(tcConn, "GET /second HTTP/1.1\r\nHost: %s\r\n\r\n", s.ohost)
+					b, closedB := readQuiet(900 * time.Millisecond)
+					switch {
+					case strings.Contains(string(b), "origin-body:/second") && strings.HasSuffix(first, "incomplete"):
+						return first + " then open: the next response arrived where the rest of the first body is expected"
+					case strings.Contains(string(b), "origin-body:/second"):
+						return first + " then own-answer"
+					case closedB:
+						return first + " then closed"
+					}
+					return first + fmt.Sprintf(" then open: %d more bytes", len(b))
 				}
 				if f[1] == "tunnel2" {
 					// the odd exchange, then an ordinary one on the SAME tunnel: it must get its own answer (or find the
@@ -206,6 +274,10 @@ func init() {
 					head += x
 				} else {
 					head += x + "\r\n"
+				}
+				if i%25 == 7 {
+					p := r.Pick([]string{"/trunc-cl", "/trunc-chunked", "/trunc-cl-nostore", "/trunc-chunked-nostore"})
+					emit("rr", "tunnel3", hx("GET "+p+fmt.Sprintf("-%d", i)+" HTTP/1.1\r\nHost: @ORIGIN@\r\n\r\n"))
 				}
 				tr := "plain"
 				if r.Chance(30) && m != "CONNECT" {
